@@ -112,6 +112,10 @@ def rule_descend_paths(ctx, rid_i="R6.1", rid_s="R6.2"):
                 ri.ok(where, "instance is a property *name* (%s): no address, no path" % show(I))
             else:
                 ri.fail(key + "|path-on-name", where, "a property name has no address, yet path=%s is given" % show(pt))
+        elif _paths_table_clean(ctx, frame):
+            # the call's arguments reach it in a way this rule does not read (`descend(item, subschema, **where)`): the applicator table
+            # -- every forwarded error's path and schema_path compared with the part and subschema that produced it -- decides
+            ri.ok(where, "decided on the applicator table only (paths aspect): %s" % show(I))
         else:
             ri.fail(key + "|instance-prov|%s" % show(I), where, "cannot relate the descended instance %s to the function's instance" % show(I))
         # ---- schema side
@@ -140,9 +144,29 @@ def rule_descend_paths(ctx, rid_i="R6.1", rid_s="R6.2"):
                 rs.ok(where, "subschema obtained elsewhere (%s): no schema_path" % show(S))
             else:
                 rs.fail(key + "|schema_path-on-opaque", where, "schema_path=%s given for a subschema that is not part of this keyword's value" % show(st))
+        elif _paths_table_clean(ctx, frame):
+            rs.ok(where, "decided on the applicator table only (paths aspect): %s" % show(S))
         else:
             rs.fail(key + "|schema-prov|%s" % show(S), where, "cannot relate the subschema %s to the keyword value" % show(S))
     return ri, rs
+
+
+def _paths_table_clean(ctx, f):
+    """Does the applicator table (sa/rules/applic.py) cover the keyword function f, and do all its rows agree on paths?"""
+    from .applic import evaluate_all, compare
+    if "_applic_all" not in ctx.extra:
+        ctx.extra["_applic_all"] = evaluate_all(ctx.prog)
+    seen = False
+    for rec in ctx.extra["_applic_all"]:
+        if rec["func"].qual != f.qual:
+            continue
+        seen = True
+        if rec["undecided"] is not None:
+            return False
+        for row, st, res in rec["results"]:
+            if st == "raises" or compare("paths", res, row.expected):
+                return False
+    return seen
 
 
 def rule_dispatcher_stamp(ctx, rid="R6.3"):
@@ -657,6 +681,7 @@ def run(ctx):
     from .c02 import rule_short_circuit, rule_ref_opaque
     rule_short_circuit(ctx, "R6.16")
     rule_ref_opaque(ctx, "R6.16b")
+    scope.rule_scope_in_force(ctx, "R6.17")
 
 
 def rule_errors_untouched(ctx, rid="R6.12"):
